@@ -1234,7 +1234,13 @@ impl<'comments> Formatter<'comments> {
     }
 
     pub fn trace_if_false<'a>(&mut self, value: &'a UntypedExpr) -> Document<'a> {
-        docvec![self.wrap_unary_op(value), "?"]
+        match value {
+            // NOTE: `a??` does not parse as `(a?)?`
+            UntypedExpr::TraceIfFalse { .. } => {
+                docvec!["(", self.expr(value, false), ")", "?"]
+            }
+            _ => docvec![self.wrap_unary_op(value), "?"],
+        }
     }
 
     pub fn trace<'a>(
